@@ -119,9 +119,30 @@ Proof.
   - destruct (negb (Nat.eqb (List.length (r_nonseq r)) 0)); congruence.
 Qed.
 
+(* the two sites that reject a combiner without a splitter (Submitter.__call__ for a directly submitted task,
+   Node._set_state + State.depth for a workflow node) decide alike *)
+Definition validate' (r : req) : verr + option spl :=
+  match split_stage r with
+  | inl x => inl x
+  | inr os =>
+      let comb := match r_comb r with Some c => c | None => [] end in
+      if negb (subsetb comb (r_task r)) then inl VCombNotInTask
+      else match os with
+           | Some s => if negb (subsetb comb (leaves s)) then inl VCombNotSplit else inr (Some s)
+           | None => match comb with [] => inr None | _ => inl VCombNoSplit end
+           end
+  end.
+
+Lemma validate_eq r : validate r = validate' r.
+Proof.
+  unfold validate, validate'. destruct (split_stage r) as [x|[s|]]; try reflexivity.
+  cbv zeta. destruct (negb (subsetb _ (r_task r))); [reflexivity|].
+  destruct (r_node r); [|reflexivity]. destruct (match r_comb r with Some c => c | None => [] end); reflexivity.
+Qed.
+
 Lemma validate_err_illformed r v : validate r = inl v -> illformed r.
 Proof.
-  unfold validate.
+  rewrite validate_eq. unfold validate'.
     destruct (split_stage r) as [x|os] eqn:S.
     + intros _. unfold split_stage in S.
       destruct (r_split_called r) eqn:Ec; cbn [negb] in S; [|discriminate].
@@ -158,7 +179,7 @@ Qed.
 Theorem validate_ok_iff r : (exists os, validate r = inr os) <-> ~ illformed r.
 Proof.
   split.
-  - intros [os V] I. unfold validate in V.
+  - intros [os V] I. rewrite validate_eq in V. unfold validate' in V.
     destruct (split_stage r) as [x|os'] eqn:S; [discriminate|].
     pose proof (split_stage_effective r os' S) as Eff.
     set (comb := match r_comb r with Some c => c | None => [] end) in V.
@@ -210,7 +231,7 @@ Proof. intros ->. reflexivity. Qed.
 
 Lemma illformedb_validate r : illformedb r = false <-> exists os, validate r = inr os.
 Proof.
-  unfold illformedb, validate, split_stage, effective_split.
+  rewrite validate_eq. unfold illformedb, validate', split_stage, effective_split.
   destruct (r_split_called r); cbn [negb andb orb].
   - destruct (r_split r) as [s|].
     + destruct (has_dup (leaves s)); cbn [orb negb]; [split; [discriminate| intros [? H]; discriminate]|].
